@@ -15,6 +15,7 @@ import (
 	"strings"
 	"sync"
 	"sync/atomic"
+	"time"
 
 	sgbucket "github.com/couchbase/sg-bucket"
 	"github.com/couchbaselabs/rosmar"
@@ -23,6 +24,14 @@ import (
 type StressRun struct {
 	Cas  []*CasRef `json:"cas"`  // mutation/deletion events of the stress keys, in delivery order
 	Ckpt *CasRef   `json:"ckpt"` // checkpoint document after the run
+}
+type StressKey struct {
+	Key      string  `json:"key"`
+	FinalCas *CasRef `json:"finalcas"`
+	FinalVal string  `json:"finalval"` // body, "" = no body
+	EvCas    *CasRef `json:"evcas"`
+	EvVal    string  `json:"evval"` // body of the last event, "" = deletion
+	EvDel    bool    `json:"evdel"`
 }
 type StressLine struct {
 	K       string             `json:"k"`
@@ -35,6 +44,7 @@ type StressLine struct {
 	Commit  []*CasRef          `json:"commit"` // CAS values in commit order (cas.new hook, under the bucket mutex)
 	Writes  int                `json:"writes"`
 	Incrs   int                `json:"incrs"`   // successful Incr calls (each by 1)
+	Keys    []StressKey        `json:"keys"`    // per key: the final document and the last event the live feed delivered for it
 	Counter int                `json:"counter"` // final value of the counter (first Incr creates it with 1)
 }
 
@@ -70,13 +80,19 @@ func runStress(trNo int, mode, scratch string, seed int64, writers, perWriter, n
 	defer rosmar.VerifSetHook(nil)
 	// a live feed running all along
 	var lmu sync.Mutex
+	lastEv := map[string]sgbucket.FeedEvent{}
 	lterm := make(chan bool)
 	ldone := make(chan struct{})
+	markerSeen := make(chan struct{})
 	if err := c2.StartDCPFeed(ctx, sgbucket.FeedArguments{ID: "stresslive", Backfill: sgbucket.FeedNoBackfill, Terminator: lterm, DoneChan: ldone},
 		func(e sgbucket.FeedEvent) bool {
+			if string(e.Key) == "zz-marker" {
+				close(markerSeen)
+			}
 			if strings.HasPrefix(string(e.Key), "s") && (e.Opcode == sgbucket.FeedOpMutation || e.Opcode == sgbucket.FeedOpDeletion) {
 				lmu.Lock()
 				line.Live = append(line.Live, tr.C(e.Cas))
+				lastEv[string(e.Key)] = e
 				lmu.Unlock()
 			}
 			return true
@@ -174,9 +190,30 @@ func runStress(trNo int, mode, scratch string, seed int64, writers, perWriter, n
 		}
 	}
 	// flush the live feed with a marker, then stop it
-	_ = c.SetRaw("zz-marker", 0, nil, []byte("m"))
+	if err := c.SetRaw("zz-marker", 0, nil, []byte("m")); err != nil {
+		return nil, err
+	}
+	select {
+	case <-markerSeen: // everything posted before the marker has been delivered
+	case <-time.After(10 * time.Second):
+		return nil, fmt.Errorf("the live feed did not deliver the final marker")
+	}
 	close(lterm)
 	<-ldone
+	lmu.Lock()
+	for _, k := range keys {
+		sk := StressKey{Key: k, FinalCas: line.Final[k], EvCas: tr.C(0)}
+		if v, _, err := c.GetRaw(k); err == nil {
+			sk.FinalVal = string(v)
+		}
+		if ev, ok := lastEv[k]; ok {
+			sk.EvCas = tr.C(ev.Cas)
+			sk.EvDel = ev.Opcode == sgbucket.FeedOpDeletion
+			sk.EvVal = string(ev.Value)
+		}
+		line.Keys = append(line.Keys, sk)
+	}
+	lmu.Unlock()
 	line.Writes = writers * perWriter
 	line.Incrs = int(atomic.LoadInt64(&incrs))
 	var cv uint64
